@@ -8,6 +8,7 @@ from ..probe import call
 from ..ref import bits
 
 LEVEL = "exploration"
+BRANCH_TARGETS = ['pyModeS.decoder:tell', 'pyModeS.decoder.adsb:position', 'pyModeS.decoder.adsb:position_with_ref', 'pyModeS.decoder.adsb:altitude', 'pyModeS.decoder.adsb:velocity']
 TECHNIQUE = 'runtime monitoring: exception-type, shape-predicate, guard-domain and routing monitors over the DF x TC x subtype matrix for every public callable incl. tell()'
 LEVEL_TEXT = 'Exploration over the full cell matrix with all-zero/all-one/random/reserved payloads; shapes and domains are transcribed from docstrings and error messages.'
 LEVEL_RULE = (
